@@ -598,6 +598,20 @@ class C20Session(Session):
                         t.update(scale=op.get("value", 3))
                 out = self._guard(edit)
                 self.probe("trace_edited_in_place")
+        elif k == "defaults_copy_edit":
+            # magpy.defaults.copy() / display.copy() / display.style.copy(): independent of the live defaults
+            import magpylib as magpy
+
+            def run():
+                tgt = {"defaults": magpy.defaults, "display": magpy.defaults.display,
+                       "style": magpy.defaults.display.style}[op.get("which", "style")]
+                c = tgt.copy()
+                sub = c if op.get("which") == "style" else (c.display.style if op.get("which") == "defaults"
+                                                              else c.style)
+                fam = getattr(sub, op["fam"])
+                fam.update(**{leaf: own(v, leaf) for leaf, v in op["items"]})
+            out = self._guard(run)
+            self.probe("defaults_copy_edited")
         elif k == "style_copy_edit":
             # obj.style.copy() is an independent style: changing the copy (leaves, traces) must not reach obj
             i = op["o"] % len(w.objs)
@@ -925,6 +939,14 @@ class Sim:
                       "how": rng.choice(["show", "scale", "kwargs", "update"]), "value": rng.randint(2, 9)}
             else:
                 op = {"op": "add_trace", "o": rng.randrange(n), "x": rng.randint(1, 5)}
+            op["probe_kw"] = self._probe_kw(rng, cfg, sess)
+            return op
+        if rng.random() < 0.03:
+            fam = rng.choice(sm.DEFAULT_FAMILIES)
+            fl = [k[len(fam) + 1:] for k in M.D if k.startswith(fam + "_")]
+            items = [it for it in self._items(rng, cfg, self._leaves(fl)) if not sm.is_alias(it[0])]
+            op = {"op": "defaults_copy_edit", "fam": fam, "items": items,
+                  "which": rng.choice(["defaults", "display", "style"])}
             op["probe_kw"] = self._probe_kw(rng, cfg, sess)
             return op
         if rng.random() < 0.04:
